@@ -6,12 +6,14 @@ static Hooks* g_hooks = nullptr;
 
 static void stmt_tramp(bloc::Context& ctx, const bloc::Statement* s) { if (g_hooks && g_hooks->on_statement) g_hooks->on_statement(ctx, s); }
 static void alloc_tramp(bloc::Context& ctx) { if (g_hooks && g_hooks->on_allocate) g_hooks->on_allocate(ctx); }
+static void trace_tramp() { if (g_hooks && g_hooks->on_trace) g_hooks->on_trace(); }
 
 void Hooks::install() {
   g_hooks = this;
   bloc::verif_hooks.on_statement = on_statement ? &stmt_tramp : nullptr;
   bloc::verif_hooks.on_allocate = on_allocate ? &alloc_tramp : nullptr;
+  bloc::verif_hooks.on_trace = on_trace ? &trace_tramp : nullptr;
 }
-void Hooks::remove() { bloc::verif_hooks.on_statement = nullptr; bloc::verif_hooks.on_allocate = nullptr; g_hooks = nullptr; }
+void Hooks::remove() { bloc::verif_hooks.on_statement = nullptr; bloc::verif_hooks.on_allocate = nullptr; bloc::verif_hooks.on_trace = nullptr; g_hooks = nullptr; }
 
 } // namespace sim
